@@ -7,7 +7,7 @@ import sympy as sp
 
 from .. import terms as T
 from ..terms import P, op, Str, fname, CMP
-from ..interp import Interp, FuncVal, Env, Obj
+from ..interp import Interp, FuncVal, Env, Obj, PartialVal, LambdaVal
 from .. import envres
 from .kernels import WB, E, GRID, PAR, DEPTH, U, THW, kernel_interp, par, wind
 from .fc import own_walk, calls, call_name
@@ -66,7 +66,7 @@ def run(ctx):
     it.hooks[FPI] = hook
     speed = P("U10")
     r = it.call_function(ffu, [speed], {"charnock_constant": alpha, "viscous_constant": cv}, None)
-    if "function" not in rec or not isinstance(rec["function"], FuncVal):
+    if "function" not in rec or not isinstance(rec["function"], (FuncVal, PartialVal, LambdaVal)):
         ctx.unsure("R10.1", "charnock_roughness_length_from_u10", "the iterated function was not captured", ffu.loc())
     else:
         z = P("z")
